@@ -97,11 +97,26 @@ def corpus_unit(acc, unit):
     from ..ref.decode import decode
 
     loader.load()
-    from tpmstream.io.pcapng.marshal import tpm_pkgs_from_pcap_file
+    import dpkt
+
+    def packets(raw):
+        """TPM messages of a bundled capture (raw IP packets written by tpm2-tss' tcti-pcap), read with dpkt directly"""
+        out = []
+        for _ts, buf in dpkt.pcapng.Reader(io.BytesIO(raw)):
+            try:
+                pkg = dpkt.ip.IP(buf)
+            except dpkt.dpkt.UnpackError:
+                pkg = dpkt.ethernet.Ethernet(buf)
+            while not isinstance(pkg, bytes):
+                pkg = pkg.data
+            if len(pkg) >= 10:
+                size = int.from_bytes(pkg[2:6], "big")
+                out.append(pkg[:size] if size != len(pkg) else pkg)
+        return out
 
     for path in unit["files"]:
         with open(path, "rb") as f:
-            pkgs = list(tpm_pkgs_from_pcap_file(io.BytesIO(f.read())))
+            pkgs = packets(f.read())
         cc = enc = None
         for i, m in enumerate(pkgs):
             loader.cache_clear()
